@@ -722,10 +722,12 @@ def decorate_with_checker(func: CallableT) -> CallableT:
             if id_func in in_progress:
                 return await func(*args, **kwargs)
 
+            # The function is marked only while its contracts are being evaluated, not while its body runs,
+            # so that the calls made by the body (e.g., recursive calls) are checked as well.
+            in_progress.add(id_func)
+
             # Use try-finally instead of ExitStack for performance.
             try:
-                in_progress.add(id_func)
-
                 (preconditions, snapshots, postconditions) = _unpack_pre_snap_posts(
                     wrapper
                 )
@@ -755,12 +757,17 @@ def decorate_with_checker(func: CallableT) -> CallableT:
                         snapshots=snapshots, resolved_kwargs=resolved_kwargs
                     )
 
-                # Ideally, we would catch any exception here and strip the checkers from the traceback.
-                # Unfortunately, this can not be done in Python 3, see
-                # https://stackoverflow.com/questions/44813333/how-can-i-elide-a-function-wrapper-from-the-traceback-in-python-3
-                result = await func(*args, **kwargs)
+            finally:
+                in_progress.discard(id_func)
 
-                if postconditions:
+            # Ideally, we would catch any exception here and strip the checkers from the traceback.
+            # Unfortunately, this can not be done in Python 3, see
+            # https://stackoverflow.com/questions/44813333/how-can-i-elide-a-function-wrapper-from-the-traceback-in-python-3
+            result = await func(*args, **kwargs)
+
+            if postconditions:
+                in_progress.add(id_func)
+                try:
                     resolved_kwargs["result"] = result
 
                     violation_error = await _assert_postconditions_async(
@@ -768,10 +775,10 @@ def decorate_with_checker(func: CallableT) -> CallableT:
                     )
                     if violation_error:
                         raise violation_error
+                finally:
+                    in_progress.discard(id_func)
 
-                return result
-            finally:
-                in_progress.discard(id_func)
+            return result
 
     else:
 
@@ -798,10 +805,12 @@ def decorate_with_checker(func: CallableT) -> CallableT:
             if id_func in in_progress:
                 return func(*args, **kwargs)
 
+            # The function is marked only while its contracts are being evaluated, not while its body runs,
+            # so that the calls made by the body (e.g., recursive calls) are checked as well.
+            in_progress.add(id_func)
+
             # Use try-finally instead of ExitStack for performance.
             try:
-                in_progress.add(id_func)
-
                 (preconditions, snapshots, postconditions) = _unpack_pre_snap_posts(
                     wrapper
                 )
@@ -833,12 +842,17 @@ def decorate_with_checker(func: CallableT) -> CallableT:
                         snapshots=snapshots, resolved_kwargs=resolved_kwargs, func=func
                     )
 
-                # Ideally, we would catch any exception here and strip the checkers from the traceback.
-                # Unfortunately, this can not be done in Python 3, see
-                # https://stackoverflow.com/questions/44813333/how-can-i-elide-a-function-wrapper-from-the-traceback-in-python-3
-                result = func(*args, **kwargs)
+            finally:
+                in_progress.discard(id_func)
 
-                if postconditions:
+            # Ideally, we would catch any exception here and strip the checkers from the traceback.
+            # Unfortunately, this can not be done in Python 3, see
+            # https://stackoverflow.com/questions/44813333/how-can-i-elide-a-function-wrapper-from-the-traceback-in-python-3
+            result = func(*args, **kwargs)
+
+            if postconditions:
+                in_progress.add(id_func)
+                try:
                     resolved_kwargs["result"] = result
 
                     violation_error = _assert_postconditions(
@@ -848,10 +862,10 @@ def decorate_with_checker(func: CallableT) -> CallableT:
                     )
                     if violation_error:
                         raise violation_error
+                finally:
+                    in_progress.discard(id_func)
 
-                return result
-            finally:
-                in_progress.discard(id_func)
+            return result
 
     # Copy __doc__ and other properties so that doctests can run
     functools.update_wrapper(wrapper=wrapper, wrapped=func)
